@@ -106,7 +106,7 @@ def _replay_palette(chk, records, k_conc):
 
 # ------------------------------------------------------------------ font level (PaletteUse)
 _RGB = [(200, 30, 40), (20, 180, 60)]
-_ALPHA = {4: 1.0, 2: 0.5}
+_ALPHA = {4: 1.0, 2: 0.25}   # 0.25 * 255 = 63.75: rounding (64) and truncation (63) differ, no tie
 
 
 def _svg_for(colors, as_stops=False):
@@ -146,7 +146,7 @@ def _read_back(font, version, gname, ncolors):
                 out.append((None, 1.0, 0xFFFF))
             else:
                 c = cpal[layer.colorID]
-                out.append(((c.red, c.green, c.blue), round(c.alpha / 255, 3), layer.colorID))
+                out.append(((c.red, c.green, c.blue), round(c.alpha / 255, 3), layer.colorID, c.alpha))
     else:
         t = colr.table
         rec = [r for r in t.BaseGlyphList.BaseGlyphPaintRecord if r.BaseGlyph == gname][0]
@@ -243,6 +243,10 @@ def _replay_fonts(chk, records, limit):
                 chk.violation(f"layer {i}: palette colour {g[0]} != source {_RGB[c['v']]}", replay)
             if abs(g[1] - _ALPHA[c["a"]]) > 0.003:
                 chk.violation(f"layer {i}: effective alpha {g[1]} != source {_ALPHA[c['a']]}", replay)
+            if version == 0 and abs(g[3] - 255 * _ALPHA[c["a"]]) > 0.5 + 1e-9:
+                # in COLRv0 the alpha lives in the palette entry: the nearest of the 256 steps
+                chk.violation(f"layer {i}: COLRv0 palette alpha byte {g[3]} is not the nearest step to {_ALPHA[c['a']]} "
+                              f"({255 * _ALPHA[c['a']]:.2f})", replay)
             if c["idx"] >= 0 and g[2] != c["idx"]:
                 chk.violation(f"layer {i}: var(--color{c['idx']}) resolved to palette index {g[2]}", replay)
             if g[2] != m["pi"]:
